@@ -161,7 +161,9 @@ class Check(CheckBase):
         cls.pause_reads, cls.pause_writes = pause_reads, pause_writes
         dmax_allowed = max(L // 4, 1)
         derived = max(L // (16 * N), 1)
-        style = r.choice(['derived', 'constant', 'random', 'burst', 'quarter'])
+        style = r.choice(['derived', 'constant', 'random', 'burst', 'quarter', 'tiny', 'tiny'])
+        # pieces worth well under a millisecond each (many small objects, a peer that delivers in dribbles)
+        tiny = max(1, L // r.choice([1100, 2000, 5000, 20000]))
         total_target = r.choice([2, 3, 5]) * L if L <= 10**6 else 3 * 10**6
         total_target = max(total_target, 40)
         log = []
@@ -174,6 +176,8 @@ class Check(CheckBase):
                 return max(1, dmax_allowed // 3)
             if style == 'quarter':
                 return dmax_allowed
+            if style == 'tiny':
+                return tiny
             if style == 'burst':
                 return dmax_allowed if (k // 5) % 2 == 0 else 1
             return r.randint(1, dmax_allowed)
@@ -186,8 +190,10 @@ class Check(CheckBase):
                 return {'half': base / 2, 'equal': base, 'double': 2 * base, 'random': rr.random() * 2 * base}[latency_kind]
             return fn
         per_stream = max(total_target // N, 4)
-        if per_stream // max(1, (derived if style == 'derived' else dmax_allowed // 3 or 1)) > 1500:
-            per_stream = 1500 * max(1, (derived if style == 'derived' else dmax_allowed // 3 or 1))
+        unit = tiny if style == 'tiny' else max(1, (derived if style == 'derived' else dmax_allowed // 3 or 1))
+        cap = 6000 if style == 'tiny' else 1500
+        if per_stream // unit > cap:
+            per_stream = cap * unit
         payloads = [random.Random(seed + s).randbytes(min(per_stream, 2_000_000)) for s in range(N)]
         results = [None] * N
 
